@@ -181,8 +181,12 @@ def brute_tmeasure(ref_seg, est_seg, nfr, transitive, window):
     return prec, rec, f
 
 
-def job_tmeasure(size, fs, maxT, window, transitive):
-    b = T.b_hier(2, fs, maxT, window='none' if window is None else window, transitive=transitive)
+def job_tmeasure(size, fs, maxT, window, transitive, counts=None):
+    if counts is not None:
+        b = T.b_hier_counts(counts[0], counts[1], fs, maxT, window='none' if window is None else window, transitive=transitive)
+        size = counts
+    else:
+        b = T.b_hier(2, fs, maxT, window='none' if window is None else window, transitive=transitive)
 
     def build(ctx):
         return b(ctx, size)
@@ -194,7 +198,7 @@ def job_tmeasure(size, fs, maxT, window, transitive):
             A.observe(nm, v)
             A.require(A.in01(v), 'tmeasure.%s-in-[0,1]' % nm)
         # number of frames: floor(T/fs) (exact arithmetic)
-        T_end = rh[0][0, 1]
+        T_end = rh[0][len(rh[0]) - 1, 1]
         nfr = 0
         while bool(A.xle((nfr + 1) * fs, T_end)):
             nfr += 1
@@ -219,7 +223,7 @@ def job_tmeasure(size, fs, maxT, window, transitive):
         want = brute_tmeasure(segs[0], segs[1], nfr, transitive, wf)
         for nm, v, w in zip(('P', 'R', 'F'), res, want):
             A.require(A.eq(v, w), 'tmeasure.%s==triplet-definition' % nm, want=w)
-    return Job('C17', 'tmeasure[%s,fs=%s,T<=%s,window=%s,transitive=%s]' % ('x'.join(map(str, size)), fs, maxT, window, transitive), build, body,
+    return Job('C17', 'tmeasure[%s,fs=%s,T<=%s,window=%s,transitive=%s]' % ('x'.join(map(str, size)) if counts is None else 'levels ref %s est %s (not nec. nested)' % counts, fs, maxT, window, transitive), build, body,
                funcs=['hierarchy.tmeasure', 'hierarchy._lca', 'hierarchy._gauc', 'hierarchy._compare_frame_rankings', 'hierarchy._round',
                       'hierarchy.validate_hier_intervals'], bounds=dict(size=size, frame_size=fs, max_span=maxT), exact_floats=False, timeout_s=3000)
 
@@ -320,6 +324,11 @@ def jobs(tier):
            ((3, 2), 0.5, 2.0, None, False), ((2, 3), 0.25, 1.0, 0.5, True), ((2, 2), 0.5, 3.0, 1.0, False)]
     for c in cfg:
         js.append(job_tmeasure(*c))
+    # hierarchies that need not be nested (a deeper segment may straddle a shallower boundary); three levels in thorough
+    for (counts, fs, maxT, w, tr) in ([(((2, 2), (1, 2)), 0.5, 2.0, None, False)] if q else
+                                      [(((2, 2), (1, 2)), 0.5, 2.0, None, False), (((2, 2), (2, 2)), 0.5, 2.0, 1.0, True), (((1, 2, 2), (1, 2)), 0.5, 2.0, None, False),
+                                       (((2, 3), (1, 2)), 0.5, 2.0, None, True)]):
+        js.append(job_tmeasure(None, fs, maxT, w, tr, counts=counts))
     for c in ([((2, 2), 0.5, 2.0)] if q else [((2, 2), 0.5, 2.0), ((3, 2), 0.5, 2.0), ((2, 2), 0.25, 1.0), ((2, 3), 0.5, 3.0)]):
         js.append(job_lmeasure(*c))
     js.append(job_params())
